@@ -142,8 +142,10 @@ func discharge(o *Oblig, timeoutS int, thorough bool) SolveResult {
 		return r
 	}
 	// stage 0: without the quantified assumptions (sound: fewer assumptions); most safety obligations end here
+	qfSat := false
 	if !quantified(o.Phi) {
 		r0 := runSolver(solvers[0], o.QueryQF(), min(timeoutS, 5))
+		qfSat = r0.Status == "sat"
 		tried = append(tried, fmt.Sprintf("%s(qf):%s:%.2fs", r0.Solver, r0.Status, r0.TimeS))
 		if r0.Status == "unsat" {
 			r0.Tried = tried
@@ -200,8 +202,26 @@ func discharge(o *Oblig, timeoutS int, thorough bool) SolveResult {
 			}
 		}
 	}
+	if res.Status != "unsat" && res.Status != "sat" && qfSat && len(o.Inputs) > 0 {
+		// no model of the full query, but one of its quantifier-free slice: a candidate input for the replay on the
+		// real code (which decides whether it is genuine)
+		qm := strings.Replace(o.QueryQF(), "(check-sat)\n", "(check-sat)\n(get-value ("+modelTerms(o)+"))\n", 1)
+		r := runSolver(solvers[0], qm, min(timeoutS, 5))
+		if r.Status == "sat" {
+			res.Model = parseModel(r.Output, o.Inputs)
+			res.Output += "\n(model taken from the quantifier-free slice of the assumptions)"
+		}
+	}
 	res.Tried = tried
 	return res
+}
+
+func modelTerms(o *Oblig) string {
+	var b strings.Builder
+	for _, m := range o.Inputs {
+		b.WriteString(m.Term + " ")
+	}
+	return b.String()
 }
 
 func dischargeAll(obs []*Oblig, timeoutS int, thorough bool, par int) []SolveResult {
